@@ -304,6 +304,12 @@ func assignOne(destValue reflect.Value, taken any, to string) (reflect.Value, er
 			if !valueValue.IsValid() {
 				valueValue = newInstanceByType(destValue.Type().Elem())
 				destValue.SetMapIndex(keyValue, valueValue)
+			} else if valueValue.Kind() == reflect.Struct {
+				// an element put there by an earlier mapping: MapIndex returns a non-addressable copy whose fields
+				// cannot be set, continue on an addressable copy (it is written back to the map below)
+				addressable := reflect.New(valueValue.Type()).Elem()
+				addressable.Set(valueValue)
+				valueValue = addressable
 			}
 
 			if parentMap.IsValid() {
